@@ -222,6 +222,25 @@ def curve_mod(modname):
     return _MODS[modname]
 
 
+def cube_root_of_unity(p):
+    """a primitive cube root of unity modulo p (p = 1 mod 3), else None"""
+    if p % 3 != 1:
+        return None
+    for g_ in range(2, 60):
+        beta = pow(g_, (p - 1) // 3, p)
+        if beta != 1:
+            return beta
+    return None
+
+
+def same_y_partner(cm, A):
+    """(beta x, y): a different point with the same y on y^2 = x^3 + b (a horizontal line meets the curve in x, beta x, beta^2 x)"""
+    beta = cube_root_of_unity(cm.m.field_modulus)
+    if A is None or beta is None:
+        return None
+    return (A[0] * beta, A[1])
+
+
 def special_points(cm, g, rng):
     """points outside the prime-order subgroup / of small order, where constructible"""
     out = []
@@ -263,6 +282,10 @@ class CurveFamily:
                 cands = [A, B, None] + sp
                 if name in ("add", "eq"):
                     pairs = [(A, B), (A, A), (A, aff_neg(A)), (None, A), (A, None), (None, None)]
+                    Ay = same_y_partner(cm, A)
+                    if Ay is not None:
+                        # distinct points with equal y, and with opposite y (neither equal nor inverse)
+                        pairs += [(A, Ay), (Ay, A), (A, aff_neg(Ay)), (aff_neg(Ay), A)]
                     pairs += [(s, s) for s in sp] + [(s, A) for s in sp] + [(s, aff_neg(s)) for s in sp]
                     for P, Q in pairs:
                         for _ in range(2):
@@ -299,6 +322,18 @@ class CurveFamily:
                             if g == "G12" and n > 2 ** 70:
                                 continue
                             yield dict(group=g, args=[enc_pt(cm.to_rep(g, P, rng)), n])
+                    if rnd == 0:
+                        # the module's own generator constant, unscaled, and scalars that are long / have long runs of one bits
+                        p_ = cm.m.field_modulus
+                        big = [2 ** 49 - 1, 2 ** 53 + 1, 2 ** 64 - 1, 2 ** 128 - 1, 2 ** 255 - 19, 2 ** 256 - 189, 2 ** 256 - 1, 2 ** 256,
+                               2 ** 256 + 1, 2 * p_ - r_, rng.randrange(2 ** 639, 2 ** 640), r_ - 1, r_ + 1, 5]
+                        Gc = cm.groups[g][2]
+                        for n in big:
+                            if g == "G12" and n > 2 ** 130:
+                                continue
+                            yield dict(group=g, args=[enc_pt(Gc), n])
+                            if g != "G12":
+                                yield dict(group=g, args=[enc_pt(cm.to_rep(g, A, rng)), n])
 
     def check(self, fn, inp):
         modname, name = fn.rsplit(".", 1)
@@ -438,7 +473,9 @@ class LineFamily:
         for rnd in range(8):
             for g in ("G1", "G2"):
                 A, B, T = cm.gen_affine(g, rng), cm.gen_affine(g, rng), cm.gen_affine(g, rng)
-                for P1, P2 in ((A, B), (A, A), (A, aff_neg(A))):
+                Ay = same_y_partner(cm, A)
+                extra = ((A, Ay), (Ay, A), (A, aff_neg(Ay))) if Ay is not None else ()
+                for P1, P2 in ((A, B), (A, A), (A, aff_neg(A))) + extra:
                     yield dict(group=g, args=[enc_pt(cm.to_rep(g, P1, rng)), enc_pt(cm.to_rep(g, P2, rng)),
                                               enc_pt(cm.to_rep(g, T, rng))])
 
@@ -547,6 +584,10 @@ class SecpFamily:
             elif name == "privtopub":
                 for n in [1, 2, self.N - 1, self.N, self.N + 1, rng.randrange(2 ** 256), 0]:
                     yield dict(args=[n % 2 ** 256])
+                # keys whose 32-byte encoding has zero bytes at either end / inside
+                for n in [256, 2 ** 16, 0xff00, 2 ** 248, rng.randrange(1, 2 ** 200) << 8, rng.randrange(1, 2 ** 100) << 64,
+                          rng.randrange(1, 2 ** 120), (rng.randrange(1, 2 ** 64) << 160) | rng.randrange(1, 2 ** 64)]:
+                    yield dict(args=[n])
             elif name == "inv":
                 for a in [0, 1, 2, P - 1, rng.randrange(P), rng.randrange(P)]:
                     yield dict(args=[a, P])
